@@ -19,15 +19,6 @@ def lowerCases (env : Env) (ws : List Str) : List Str :=
     let l := env.lowerOf it
     if l.length = it.length then l else it
 
-def strLe (a b : Str) : Bool := cmpStr a b != .gt
-
-def lenThenStrLe (a b : Str) : Bool :=
-  utf8LenStr a < utf8LenStr b || (utf8LenStr a == utf8LenStr b && strLe a b)
-
-/-- `RegExp::sort`: sort, dedup, sort by (byte length, bytes) -/
-def sortCases (ws : List Str) : List Str :=
-  sortBy lenThenStrLe (dedupAdj (sortBy strLe ws))
-
 /-- `RegExp::grapheme_clusters` -/
 def graphemeClusters (cfg : Config) (env : Env) (ws : List Str) : List Cluster :=
   let cs := ws.map fun w => clusterOfPieces (env.segOf w)
